@@ -248,19 +248,27 @@ func checkC14(r *Report, known []Finding) {
 		btState := nfa.NewBacktrackerState()
 		// lazy DFA configurations: tiny caches force clears and fallbacks
 		type dcfg struct {
-			name         string
-			d            *lazy.DFA
-			c            *lazy.DFACache
-			capb, clears int
-			ops, real    *[]string // the session on this cache, replayed through the Lean lazy-DFA model
+			name              string
+			d                 *lazy.DFA
+			c                 *lazy.DFACache
+			capb, clears, det int
+			ops, real         *[]string // the session on this cache, replayed through the Lean lazy-DFA model
 		}
 		var dfas []dcfg
 		for _, capb := range []int{1, 700, 4000, 2 << 20} {
 			for _, clears := range []int{0, 2} {
 				cfg := lazy.DefaultConfig().WithCacheCapacity(capb).WithMaxCacheClears(clears).WithPrefilter(false)
 				if d, err := lazy.CompileWithConfig(n, cfg); err == nil && d != nil {
-					dfas = append(dfas, dcfg{fmt.Sprintf("cap=%d,clears=%d", capb, clears), d, d.NewCache(), capb, clears, &[]string{}, &[]string{}})
+					dfas = append(dfas, dcfg{fmt.Sprintf("cap=%d,clears=%d", capb, clears), d, d.NewCache(), capb, clears, 1000, &[]string{}, &[]string{}})
 				}
+			}
+		}
+		// determinisation limits: two small limits that rotate with the pattern index (over a run every value 1..24 meets many automata;
+		// a limit is mishandled, if at all, when a successor set lands exactly on it), on a roomy cache so that the limit is what gives up
+		for _, det := range []int{1 + i%12, 13 + (i/3)%12} {
+			cfg := lazy.DefaultConfig().WithCacheCapacity(2 << 20).WithMaxCacheClears(2).WithPrefilter(false).WithDeterminizationLimit(det)
+			if d, err := lazy.CompileWithConfig(n, cfg); err == nil && d != nil {
+				dfas = append(dfas, dcfg{fmt.Sprintf("cap=%d,clears=2,det=%d", 2<<20, det), d, d.NewCache(), 2 << 20, 2, det, &[]string{}, &[]string{}})
 			}
 		}
 		var hays [][]byte
@@ -362,7 +370,7 @@ func checkC14(r *Report, known []Finding) {
 					continue
 				}
 				dfaSessions = append(dfaSessions, dfaSession{pattern: p, cfg: dc.name, ops: *dc.ops, real: *dc.real,
-					req: fmt.Sprintf("dfa run %d %d %d %s %s %s", dc.d.AlphabetLen(), dc.capb, dc.clears, hexOf(cls), dump, strings.Join(*dc.ops, ";"))})
+					req: fmt.Sprintf("dfa fwd %d %d %d %d %s %s %s", dc.d.AlphabetLen(), dc.capb, dc.clears, dc.det, hexOf(cls), dump, strings.Join(*dc.ops, ";"))})
 			}
 		}
 	}
